@@ -2,9 +2,13 @@ import PewModel.Register
 import PewProofs.Overlap
 import Mathlib.Tactic.Ring
 import Mathlib.Tactic.Linarith
+import Mathlib.Tactic.FieldSimp
+import Mathlib.Tactic.Positivity
 import Mathlib.Algebra.Order.Field.Rat
 import Mathlib.Algebra.BigOperators.Group.Finset.Basic
 import Mathlib.Algebra.BigOperators.Intervals
+import Mathlib.Algebra.BigOperators.Ring.Finset
+import Mathlib.Algebra.Order.BigOperators.Group.Finset
 
 namespace Pew.Register
 open Finset
@@ -277,5 +281,289 @@ theorem inLagBox_length (sa sb : List Nat) (l : List Int) (h : inLagBox sa sb l 
       | cons l0 ls =>
         simp only [inLagBox, Bool.and_eq_true] at h
         simp [ih bs ls h.2]
+
+/-! ### swapping the arguments -/
+
+/-- reindexing `m = n + l` between the two images' index ranges -/
+theorem reindex (a b : Nat) (l : Int) (H : Nat → Nat → Rat) :
+    sumRange b (fun n => if 0 ≤ (n : Int) + l ∧ (n : Int) + l < a then H ((n : Int) + l).toNat n else 0)
+      = sumRange a (fun m => if 0 ≤ (m : Int) + -l ∧ (m : Int) + -l < b then H m ((m : Int) + -l).toNat else 0) := by
+  rw [sumRange_eq, sumRange_eq, ← Finset.sum_filter, ← Finset.sum_filter]
+  apply Finset.sum_nbij' (fun (n : Nat) => ((n : Int) + l).toNat) (fun (m : Nat) => ((m : Int) + -l).toNat)
+  · intro n hn
+    simp only [Finset.mem_filter, Finset.mem_range] at hn ⊢
+    omega
+  · intro m hm
+    simp only [Finset.mem_filter, Finset.mem_range] at hm ⊢
+    omega
+  · intro n hn
+    simp only [Finset.mem_filter, Finset.mem_range] at hn
+    omega
+  · intro m hm
+    simp only [Finset.mem_filter, Finset.mem_range] at hm
+    omega
+  · intro n hn
+    simp only [Finset.mem_filter, Finset.mem_range] at hn
+    congr 1
+    omega
+
+/-- one axis of `lin` with the zero extension made explicit -/
+theorem lin_cons (a b : Nat) (as bs : List Nat) (A B : List Nat → Rat) (l0 : Int) (ls : List Int) :
+    lin (b :: bs) (zext (a :: as) A) B (l0 :: ls)
+      = sumRange b (fun n => if 0 ≤ (n : Int) + l0 ∧ (n : Int) + l0 < a then
+          lin bs (zext as (fun r => A (((n : Int) + l0).toNat :: r))) (fun r => B (n :: r)) ls else 0) := by
+  simp only [lin]
+  apply sumRange_congr
+  intro n _
+  split
+  · rename_i h
+    rw [zext_cons_in a as A _ h.1 h.2]
+  · rename_i h
+    exact lin_zero_left _ _ _ _ (fun r => zext_cons_out a as A _ h r)
+
+
+theorem map_neg_neg (l : List Int) : (l.map (- ·)).map (- ·) = l := by
+  induction l with
+  | nil => rfl
+  | cons x xs ih => simp
+
+theorem inLagBox_len (sa sb : List Nat) (l : List Int) (h : inLagBox sa sb l = true) :
+    l.length = sb.length := by
+  induction sa generalizing sb l with
+  | nil => cases sb <;> cases l <;> simp_all [inLagBox]
+  | cons a as ih =>
+    cases sb with
+    | nil => simp [inLagBox] at h
+    | cons b bs =>
+      cases l with
+      | nil => simp [inLagBox] at h
+      | cons l0 ls =>
+        simp only [inLagBox, Bool.and_eq_true] at h
+        simp [ih bs ls h.2]
+
+theorem inLagBox_neg (sa sb : List Nat) (l : List Int) (h : inLagBox sa sb l = true) :
+    inLagBox sb sa (l.map (- ·)) = true := by
+  induction sa generalizing sb l with
+  | nil => cases sb <;> cases l <;> simp_all [inLagBox]
+  | cons a as ih =>
+    cases sb with
+    | nil => simp [inLagBox] at h
+    | cons b bs =>
+      cases l with
+      | nil => simp [inLagBox] at h
+      | cons l0 ls =>
+        simp only [inLagBox, Bool.and_eq_true, decide_eq_true_eq] at h
+        simp only [List.map_cons, inLagBox, Bool.and_eq_true, decide_eq_true_eq]
+        exact ⟨by omega, ih bs ls h.2⟩
+
+
+/-! ### self-correlation -/
+
+/-- energy of an image: `Σ_{n ∈ box} A[n]²` -/
+def energy : List Nat → (List Nat → Rat) → Rat
+  | [], A => A [] * A []
+  | a :: as, A => sumRange a fun n => energy as (fun r => A (n :: r))
+
+theorem energy_nonneg (sh : List Nat) (A : List Nat → Rat) : 0 ≤ energy sh A := by
+  induction sh generalizing A with
+  | nil => simp only [energy]; exact mul_self_nonneg _
+  | cons a as ih =>
+    simp only [energy]
+    rw [sumRange_eq]
+    exact Finset.sum_nonneg (fun n _ => ih _)
+
+theorem sumRange_le (n : Nat) (f g : Nat → Rat) (h : ∀ i, i < n → f i ≤ g i) :
+    sumRange n f ≤ sumRange n g := by
+  rw [sumRange_eq, sumRange_eq]
+  exact Finset.sum_le_sum (fun i hi => h i (Finset.mem_range.mp hi))
+
+theorem sumRange_add (n : Nat) (f g : Nat → Rat) :
+    sumRange n (fun i => f i + g i) = sumRange n f + sumRange n g := by
+  rw [sumRange_eq, sumRange_eq, sumRange_eq, Finset.sum_add_distrib]
+
+/-- Cauchy–Schwarz in its arithmetic–geometric form, every dimension and lag:
+`Σ A[n+l]·B[n] ≤ (Σ A² + Σ B²) / 2` -/
+theorem lin_le_energy (sa sb : List Nat) (A B : List Nat → Rat) (l : List Int)
+    (h1 : sa.length = sb.length) (h2 : l.length = sb.length) :
+    2 * lin sb (zext sa A) B l ≤ energy sa A + energy sb B := by
+  induction sa generalizing sb A B l with
+  | nil =>
+    cases sb with
+    | nil =>
+      cases l with
+      | nil =>
+        simp only [lin, zext, inBoxI, energy, List.map_nil, if_true]
+        nlinarith [sq_nonneg (A [] - B [])]
+      | cons _ _ => simp at h2
+    | cons _ _ => simp at h1
+  | cons a as ih =>
+    cases sb with
+    | nil => simp at h1
+    | cons b bs =>
+      cases l with
+      | nil => simp at h2
+      | cons l0 ls =>
+        rw [lin_cons]
+        simp only [energy]
+        -- bound every term, then re-index the `A` energies
+        have step : sumRange b (fun n => if 0 ≤ (n : Int) + l0 ∧ (n : Int) + l0 < a then
+              2 * lin bs (zext as (fun r => A (((n : Int) + l0).toNat :: r))) (fun r => B (n :: r)) ls else 0)
+            ≤ sumRange b (fun n => (if 0 ≤ (n : Int) + l0 ∧ (n : Int) + l0 < a then
+                energy as (fun r => A (((n : Int) + l0).toNat :: r)) else 0) + energy bs (fun r => B (n :: r))) := by
+          apply sumRange_le
+          intro n _
+          split
+          · exact ih bs _ _ ls (by simpa using h1) (by simpa using h2)
+          · have := energy_nonneg bs (fun r => B (n :: r))
+            linarith
+        have e0 : 2 * sumRange b (fun n => if 0 ≤ (n : Int) + l0 ∧ (n : Int) + l0 < a then
+              lin bs (zext as (fun r => A (((n : Int) + l0).toNat :: r))) (fun r => B (n :: r)) ls else 0)
+            = sumRange b (fun n => if 0 ≤ (n : Int) + l0 ∧ (n : Int) + l0 < a then
+              2 * lin bs (zext as (fun r => A (((n : Int) + l0).toNat :: r))) (fun r => B (n :: r)) ls else 0) := by
+          rw [sumRange_eq, sumRange_eq, Finset.mul_sum]
+          apply Finset.sum_congr rfl
+          intro n _
+          split <;> simp
+        rw [e0]
+        refine le_trans step ?_
+        rw [sumRange_add, reindex a b l0 (fun m _ => energy as (fun r => A (m :: r)))]
+        have : sumRange a (fun m => if 0 ≤ (m : Int) + -l0 ∧ (m : Int) + -l0 < b then
+            energy as (fun r => A (m :: r)) else 0) ≤ sumRange a (fun m => energy as (fun r => A (m :: r))) := by
+          apply sumRange_le
+          intro m _
+          split
+          · exact le_refl _
+          · exact energy_nonneg _ _
+        linarith
+
+theorem zeros_map_neg (n : Nat) : (List.replicate n (0 : Int)).map (- ·) = List.replicate n 0 := by
+  simp
+
+/-- the correlation of an image with itself at lag zero is its energy -/
+theorem xcorr_self_zero (sh : List Nat) (A : List Nat → Rat) :
+    lin sh (zext sh A) A (List.replicate sh.length 0) = energy sh A := by
+  induction sh generalizing A with
+  | nil => simp [lin, zext, inBoxI, energy]
+  | cons a as ih =>
+    rw [List.length_cons, List.replicate_succ, lin_cons]
+    simp only [energy]
+    apply sumRange_congr
+    intro n hn
+    rw [if_pos (by omega)]
+    have : ((n : Int) + 0).toNat = n := by omega
+    rw [this, ih]
+
+
+theorem allIdx_head (s : List Nat) (hs : ∀ x ∈ s, 0 < x) :
+    ∃ tl, allIdx s = List.replicate s.length 0 :: tl := by
+  induction s with
+  | nil => exact ⟨[], rfl⟩
+  | cons x xs ih =>
+    obtain ⟨tl, htl⟩ := ih (fun y hy => hs y (by simp [hy]))
+    have hx : 0 < x := hs x (by simp)
+    obtain ⟨n, rfl⟩ : ∃ n, x = n + 1 := ⟨x - 1, by omega⟩
+    simp only [allIdx]
+    rw [List.range_succ_eq_map, List.flatMap_cons, htl]
+    exact ⟨_, rfl⟩
+
+theorem padShape_pos (sa sb : List Nat) (hpa : ∀ x ∈ sa, 0 < x) (hpb : ∀ x ∈ sb, 0 < x) :
+    ∀ x ∈ padShape sa sb, 0 < x := by
+  induction sa generalizing sb with
+  | nil => simp [padShape]
+  | cons a as ih =>
+    cases sb with
+    | nil => simp [padShape]
+    | cons b bs =>
+      intro x hx
+      simp only [padShape, List.mem_cons] at hx
+      rcases hx with e | e
+      · have := hpa a (by simp); have := hpb b (by simp); omega
+      · exact ih bs (fun y hy => hpa y (by simp [hy])) (fun y hy => hpb y (by simp [hy])) x e
+
+theorem padShape_length (sa sb : List Nat) (h : sa.length = sb.length) :
+    (padShape sa sb).length = sa.length := by
+  induction sa generalizing sb with
+  | nil => simp [padShape]
+  | cons a as ih =>
+    cases sb with
+    | nil => simp at h
+    | cons b bs => simp [padShape, ih bs (by simpa using h)]
+
+theorem inLagBox_zeros (sa sb : List Nat) (h : sa.length = sb.length)
+    (hpa : ∀ x ∈ sa, 0 < x) (hpb : ∀ x ∈ sb, 0 < x) :
+    inLagBox sa sb (List.replicate sa.length 0) = true := by
+  induction sa generalizing sb with
+  | nil => cases sb <;> simp_all [inLagBox]
+  | cons a as ih =>
+    cases sb with
+    | nil => simp at h
+    | cons b bs =>
+      simp only [List.length_cons, List.replicate_succ, inLagBox, Bool.and_eq_true, decide_eq_true_eq]
+      have := hpa a (by simp); have := hpb b (by simp)
+      exact ⟨⟨by omega, by omega⟩, ih bs (by simpa using h) (fun y hy => hpa y (by simp [hy]))
+        (fun y hy => hpb y (by simp [hy]))⟩
+
+theorem encode_zeros (s : List Nat) : encode s (List.replicate s.length 0) = List.replicate s.length 0 := by
+  induction s with
+  | nil => rfl
+  | cons x xs ih => simp [List.replicate_succ, encode, enc, ih]
+
+theorem decode_zeros (sa s : List Nat) (h : s.length = sa.length) (hpa : ∀ x ∈ sa, 0 < x) :
+    decode sa s (List.replicate s.length 0) = List.replicate sa.length 0 := by
+  induction sa generalizing s with
+  | nil => cases s <;> simp_all [decode]
+  | cons a as ih =>
+    cases s with
+    | nil => simp at h
+    | cons x xs =>
+      have := hpa a (by simp)
+      simp only [List.length_cons, List.replicate_succ, decode, dec]
+      rw [if_pos (by omega), ih xs (by simpa using h) (fun y hy => hpa y (by simp [hy]))]
+      rfl
+
+
+/-! ### windows of a scene (merge) -/
+
+section merge
+open Pew.Overlap
+
+theorem zip_add_sub (p o : List Int) (h : p.length = o.length) :
+    List.zipWith (· + ·) (Pew.Overlap.sub p o) o = p := by
+  induction p generalizing o with
+  | nil => simp [Pew.Overlap.sub]
+  | cons x xs ih =>
+    cases o with
+    | nil => simp at h
+    | cons y ys =>
+      simp only [Pew.Overlap.sub, List.zipWith_cons_cons, List.cons.injEq]
+      exact ⟨by omega, ih ys (by simpa using h)⟩
+
+/-- a window of the scene contributes the scene's value wherever it covers the pixel -/
+theorem window_at (scene : Idx → Rat) (off : List Int) (shape : List Nat) (p : Idx) :
+    (window scene off shape).at p = if (window scene off shape).inside p then some (some (scene p)) else none := by
+  unfold Arr.at
+  split
+  · rename_i h
+    simp only [window]
+    have hlen : p.length = off.length := by
+      simp only [Arr.inside, window, Bool.and_eq_true, beq_iff_eq] at h
+      exact h.1
+    rw [zip_add_sub p off hlen]
+  · rfl
+
+theorem contribs_windows (scene : Idx → Rat) (ws : List (List Int × List Nat)) (p : Idx) :
+    contribs (ws.map fun w => window scene w.1 w.2) p
+      = List.replicate ((ws.map fun w => window scene w.1 w.2).countP (fun a => a.inside p)) (scene p) := by
+  induction ws with
+  | nil => simp [contribs]
+  | cons w ws ih =>
+    simp only [List.map_cons]
+    rw [contribs_cons, window_at, ih, List.countP_cons]
+    by_cases h : (window scene w.1 w.2).inside p
+    · simp [h, List.replicate_succ']
+      rw [← List.replicate_succ, List.replicate_succ']
+    · simp [h]
+
+end merge
 
 end Pew.Register
